@@ -29,7 +29,8 @@ META = dict(
         quick='panels P1, P11, P12 (multi-digit ids, two geos with tied '
         'means); 6 transformations; symbolic: budget, share, volume '
         'tolerance, treatment size range, n_geos_max (one at a time); 3 '
-        'eligibility tables; both searches; 2^k in {2^3, 2^10, 2^-4}',
+        'eligibility tables; both searches; 2^k in {2^3, 2^10, 2^-4, 2^-45}; '
+        'P13 = P1 with a duplicated (geo, date) cell',
         thorough='adds P3, pairs of symbolic constraints, more '
         'seeded permutations'),
     outside='panels concrete; scale factors are powers of two (exact in '
@@ -190,7 +191,8 @@ def _eligs(panel):
 def jobs(tier, seed):
   out = []
   syms = [['budget'], ['share'], ['vol'], ['tsize'], ['ngm']]
-  panels_ = ['P1', 'P11', 'P12'] if tier == 'quick' else [
+  panels_ = ['P1', 'P11', 'P12', 'P13'] if tier == 'quick' else [
+      'P13',
       'P1', 'P11', 'P12', 'P3']
   for panel in panels_:
     for m in ['exhaustive', 'greedy']:
@@ -203,7 +205,7 @@ def jobs(tier, seed):
             if panel != 'P1' and m == 'exhaustive' and sym == [
                 'budget'] and (el is None or tier == 'quick'):
               continue   # 4-geo exhaustive budget cells: too many paths
-            pw = [3, 10, -4][(len(out)) % 3]
+            pw = [3, 10, -4, -45][(len(out)) % 4]
             name = '%s-%s-%s-%s-e%d' % (panel, m, t, '+'.join(sym), i)
             out.append(dict(func='pair_job', name=name, weight=(
                 20 if panel != 'P1' else 0) + (10 if sym == ['budget'] else 0),
